@@ -14,13 +14,15 @@ start -> row r is moved by  floor(stt/dt) - floor(tau_r/dt)  samples (zero fille
 negative), length n when trimmed else n + max(largest move, 0).
 
 Knife edges (DESIGN.md section 3 rule 3): the record is discontinuous at its first and last sample whenever x[0] != 0 or
-x[n-1] != 0.  If s is not an integer in exact arithmetic on the given floats but lies within a few ulps of one (0.07/0.01,
-0.145/0.01 ...), a correct implementation may see the delayed first sample at -1e-15 (before the record: 0) or at +1e-15
-(inside: x[0]), and the same for the last one.  `edge_options` enumerates these resolutions; interior samples are not
-affected.  The same holds for the floors in the placement rule (`floor_options`).  When the quotient is exact (dyadic
-dt, tau) nothing is ambiguous and the boundary samples belong to the record.
+x[n-1] != 0.  The delay in samples is s = (2*tau)/dt as evaluated in binary64.  When that evaluation IS an integer (tau a
+whole or half multiple of dt: 0.04/0.01, 0.045/0.01 ...) the delay is a whole number of samples and is decided strictly: the
+first and the last sample of the delayed wave are record samples (an implementation whose own arithmetic, e.g. on the time
+axis, overshoots by an ulp and drops one of them is wrong).  When the evaluation itself lands a few ulps off an integer
+(2*0.07/0.01 = 14.000000000000002, 2*0.145/0.01 = 28.999999999999996) a correct implementation may see the delayed first
+sample at -1e-15 (before the record: 0) or at +1e-15 (inside: x[0]), and the same for the last one; `edge_options`
+enumerates these resolutions; interior samples are not affected.  The floors of the placement rule (`floor_options`) are
+two-sided only for quotients a few ulps BELOW an integer.
 """
-from fractions import Fraction
 import itertools
 
 EPS = 2.0 ** -52
